@@ -351,6 +351,40 @@ def present_top(f, v):
         return False
 
 
+def env_has_duplicate_names(e):
+    """two value-carrying fields (or bit fields) of one envelope level with the same name: the values of an envelope are a
+    dict keyed by name, so such a definition has no assignment of values to its fields - outside the property's quantifier
+    (codec.py carries a TODO to reject it)"""
+    seen = set()
+    for f in e.get('fs', []):
+        names = []
+        if f['k'] == 'bits':
+            names = [b[1] for b in f['fs'] if b[0] == 'b']
+        elif f['k'] != 'spare' and f.get('name') is not None:
+            names = [f['name']]
+        for n in names:
+            if n in seen:
+                return True
+            seen.add(n)
+        if f['k'] in ('env', 'seq') and env_has_duplicate_names(f):
+            return True
+    return False
+
+
+def request_has_duplicate_names(req):
+    tok = req.split()
+    try:
+        if tok[0] in ("codec.dec", "codec.enc"):
+            e, _ = cd.parse_env(tok, 1)
+            return env_has_duplicate_names(e)
+        if tok[0] in ("codec.fdec", "codec.fenc"):
+            f, _ = cd.parse_field(tok, 1)
+            return env_has_duplicate_names({'fs': [f]})
+    except (IndexError, ValueError, KeyError):
+        pass
+    return False
+
+
 def referenced(fs, name):
     for f in fs:
         if f['pres'][0] != 'a' and f['pres'][1] == name:
@@ -583,7 +617,7 @@ def correspond(run, corr):
         creq.append(r); cimp.append(a); cmod.append(b)
         out = a.split()[0] + (" " + a.split()[1] if a.startswith("err") else "")
         corr.count(r, "%s -> %s" % (r.split()[0], out))
-    corr.compare(creq, cimp, cmod)
+    corr.compare(creq, cimp, cmod, in_domain=lambda r: not request_has_duplicate_names(r))
     corr.distribution["model: outside the model (UNMODELLED, not compared)"] = unmod
     corr.distribution["definitions generated"] = n
     corr.distribution["building blocks seen"] = sorted(allk)
